@@ -3655,3 +3655,53 @@ func endlessLoops(p *Program, r *Report) int {
 	}
 	return n
 }
+
+// noopBreaks: an unlabelled `break` that is the last statement of a case of a switch or select inside a loop does
+// nothing (it leaves the switch / select, which ends there anyway) - what was meant is to leave the loop. The stop
+// case of a service loop written that way never stops the loop.
+func noopBreaks(p *Program, r *Report) int {
+	n := 0
+	for _, fi := range p.SortedFuncs() {
+		if fi.Decl.Body == nil {
+			continue
+		}
+		ast.Inspect(fi.Decl.Body, func(x ast.Node) bool {
+			var body []ast.Stmt
+			switch c := x.(type) {
+			case *ast.CaseClause:
+				body = c.Body
+			case *ast.CommClause:
+				body = c.Body
+			default:
+				return true
+			}
+			// the switch / select sits in a loop of the same function (or literal)
+			inLoop := false
+			for pn := p.Parent(x); pn != nil; pn = p.Parent(pn) {
+				if _, isLit := pn.(*ast.FuncLit); isLit {
+					break
+				}
+				switch pn.(type) {
+				case *ast.ForStmt, *ast.RangeStmt:
+					inLoop = true
+				}
+				if pn == ast.Node(fi.Decl) {
+					break
+				}
+			}
+			if !inLoop {
+				return true
+			}
+			n++
+			if len(body) == 0 {
+				return true
+			}
+			br, isBr := body[len(body)-1].(*ast.BranchStmt)
+			if isBr && br.Tok == token.BREAK && br.Label == nil {
+				r.Bad(br, fi.Name+": break at the end of a case inside a loop", "the unlabelled break only leaves the switch / select, which ends here anyway: the loop goes on (a stop case written like this never stops its goroutine)")
+			}
+			return true
+		})
+	}
+	return n
+}
